@@ -233,7 +233,7 @@ func (b *VisualSampleEntryBox) EncodeSW(sw bits.SliceWriter) error {
 			return err
 		}
 	}
-	return err
+	return sw.AccError()
 }
 
 // Info writes box-specific information
